@@ -23,6 +23,10 @@ class Interchain(Family):
         if prop in ("C03", "C04", "C06", "C16", "C02"):
             # the same machine between two BitXHubs: multi-signature proofs, notices, hub availability
             runs.append(("InterchainXMC.tla", "InterchainXMC_thorough.cfg" if tier == "thorough" else "InterchainXMC.cfg", 12, 3000))
+        if prop == "C16":
+            # operational status machines (stacked proposals, cascades) against the edge sets and the history-aware formula
+            for k in ("appchain", "service", "role"):
+                runs.append(("LifecycleMC.tla", "LifecycleMC_%s.cfg" % k, 2, 600))
         return runs
 
     def viol_belongs(self, inv, prop):
